@@ -18,6 +18,7 @@ from .. import ceffects
 from ..pyfront import dotted, call_name, kwarg, params, src, walk_no_nested, const
 
 EXPLANATION = (
+    'The hydrogen scratch vector is shown (value numbering, decoded path conditions) to be written for every residue that is not skipped; no kernel source or header declares a function-local static that is not a constant.  Further: '
     "Data-sharing analysis of every OpenMP region found in the clang AST of the kernels (regions are found by OMP*Directive "
     "nodes, clauses are read from the pragma text at the directive's line): every variable written inside a region must be "
     "declared inside it, listed private, be the work-shared loop variable, or be an array element whose address depends on the "
